@@ -28,17 +28,9 @@ def model_check(c, tier):
     c.cov["design_mutations_refuted"] = ["PagerHeldAcrossLatch (deadlock found)"]
 
 
-def run(tier, seed):
-    c = Check(PROP, tier, seed, "exploration")
-    wd = vlib.workdir("c14")
-    c.assumptions = ["schedules are sampled (seeded statement lists, OS scheduling, injected yields and sleeps), not enumerated: the level is exploration",
-                     "clients never touch the same rows (own table per writer, read-only tables for readers), so the merge of all calls by completion number is a "
-                     "legal serial order and every result is determined by the client's own history; concurrent writers on one table are not exercised "
-                     "(finding NoWriteSetValidation: conflicting writers are not detected)",
-                     "no VACUUM / checkpoint while clients run (VACUUM aborts every active transaction by design; checkpoint with open transactions is a recorded finding)",
-                     "a session never deletes rows of a table that is updated (finding OwnDeleteOfUpdatedRow)"]
-    model_check(c, tier)
-    n = 4 if tier == "quick" else 40
+def conc_leg(c, wd, tier, seed, prop=PROP, n=None):
+    """real client threads; the merged history must be a behaviour of Db.tla and every client must return"""
+    n = n or (4 if tier == "quick" else 40)
     rounds = 4 if tier == "quick" else 8
     for k in range(n):
         if c.violations:
@@ -50,7 +42,7 @@ def run(tier, seed):
         except ToolError:
             rc, so = "timeout", ""
         if rc != 0:
-            p = vlib.save_replay(PROP, "conc-%d.ndjson" % s, tp) if os.path.exists(tp) else tp
+            p = vlib.save_replay(prop, "conc-%d.ndjson" % s, tp) if os.path.exists(tp) else tp
             c.violation("the database did not survive the concurrent clients (driver %s)" % rc, p)
             break
         st = last_json(so)
@@ -60,16 +52,29 @@ def run(tier, seed):
         c.add("client_threads", st["clients"])
         c.add("sessions", st["sessions"])
         if st.get("hung"):
-            p = vlib.save_replay(PROP, "conc-%d-hang.ndjson" % s, tp)
+            p = vlib.save_replay(prop, "conc-%d-hang.ndjson" % s, tp)
             c.violation("a client thread did not return within the watchdog limit (deadlock or lost worker)", p)
             break
         ok, r, devs = dbcheck.validate(c, wd, tp, "conc%d" % s)
         if not ok:
-            p = vlib.save_replay(PROP, "conc-%d.ndjson" % s, tp)
+            p = vlib.save_replay(prop, "conc-%d.ndjson" % s, tp)
             c.violation("the merged history of the concurrent clients is not a behaviour of Db.tla; first unmatched event: %s" % ((r.error_text or str(r.violated))[:600]), p)
         if k == 0 and not c.violations:
             lines = open(tp).read().splitlines()
             c.sample({"kind": "trace_sample", "value": [json.loads(x) for x in lines[len(lines) // 2: len(lines) // 2 + 5]]})
+
+
+def run(tier, seed):
+    c = Check(PROP, tier, seed, "exploration")
+    wd = vlib.workdir("c14")
+    c.assumptions = ["schedules are sampled (seeded statement lists, OS scheduling, injected yields and sleeps), not enumerated: the level is exploration",
+                     "clients never touch the same rows (own table per writer, read-only tables for readers), so the merge of all calls by completion number is a "
+                     "legal serial order and every result is determined by the client's own history; concurrent writers on one table are not exercised "
+                     "(finding NoWriteSetValidation: conflicting writers are not detected)",
+                     "no VACUUM / checkpoint while clients run (VACUUM aborts every active transaction by design; checkpoint with open transactions is a recorded finding)",
+                     "a session never deletes rows of a table that is updated (finding OwnDeleteOfUpdatedRow)"]
+    model_check(c, tier)
+    conc_leg(c, wd, tier, seed)
     vlib.report_known(c, PROP)
     c.cov["rule"] = "non-trivial = calls made while at least one other client thread was running"
     c.cov["distinct_nontrivial"] = c.cov.get("client_calls", 0)
